@@ -174,7 +174,10 @@ class CStr(ModelObj):
             if step == 1:
                 return CStr(imax(stop - start, 0), lambda j: self.at(start + j))
             return CStr(imax((stop - start + step - 1) // step, 0), lambda j: self.at(start + j * step))
-        k = _simp(norm_index(st, idx, n, "string index out of range"))
+        if _isint(idx) and _isint(n) and -n <= idx < n:
+            k = idx % n
+        else:
+            k = _simp(norm_index(st, idx, n, "string index out of range"))
         return CStr(1, lambda j: self.at(k))
 
     def py_iter(self, ip, st):
@@ -255,6 +258,8 @@ def cs_eq(a, b, bound=None):
     if isinstance(a, str) and isinstance(b, str):
         return a == b
     na, nb = cs_len(a), cs_len(b)
+    if _isint(na) and _isint(nb) and na != nb:
+        return False
     if _isint(na) or _isint(nb):
         k = na if _isint(na) else nb
         return both(na == nb, *[cs_at(a, i) == cs_at(b, i) for i in range(k)])
@@ -304,6 +309,71 @@ def digits_value(codes, base):
     return v
 
 
+def int_literal_class(codes, base):
+    """(canonical, prefixed) for the characters of a str: all ASCII digits of the base (at least one) / base 16 and
+    "0x" or "0X" followed by at least one hex digit.  Dual use (symbolic codes or plain ints)."""
+    n = len(codes)
+    canonical = both(n >= 1, *[is_digit(c, base) for c in codes])
+    prefixed = False
+    if base == 16 and n >= 3:
+        prefixed = both(codes[0] == 48, either(codes[1] == 120, codes[1] == 88), *[is_hex(c) for c in codes[2:]])
+    return canonical, prefixed
+
+
+def _xcheck_cstr():
+    """The str / int / format models on concrete strings against CPython."""
+    import random
+
+    rnd = random.Random(18)
+    alphabet = "0123456789abcdefABCDEFxXgh#+- _,\t\u0663\u00b2z"
+    bad = []
+    for t in range(6000):
+        sv = "".join(rnd.choice(alphabet) for _ in range(rnd.randrange(0, 9)))
+        codes = [ord(ch) for ch in sv]
+        for base in (10, 16):
+            canonical, prefixed = int_literal_class(codes, base)
+            try:
+                real = int(sv, base)
+            except ValueError:
+                real = None
+            if canonical and real != digits_value(codes, base):
+                bad.append(("int-canonical", sv, base))
+            elif not canonical and prefixed and real != digits_value(codes[2:], base):
+                bad.append(("int-prefixed", sv, base))
+            # every other string: the model allows ValueError or any int - CPython must do one of the two
+        m = CStr.of(sv)
+        i, j, k = rnd.randrange(-10, 10), rnd.randrange(-10, 10), rnd.randrange(1, 4)
+        got = m.py_getitem(None, None, Q.SSlice(i, j, k))
+        if "".join(chr(got.at(x)) for x in range(got.n)) != sv[i:j:k]:
+            bad.append(("slice", sv, i, j, k))
+        got = m.py_getitem(None, None, Q.SSlice(i, None, None))
+        if "".join(chr(got.at(x)) for x in range(got.n)) != sv[i:]:
+            bad.append(("slice-open", sv, i))
+        if -len(sv) <= i < len(sv) and chr(m.py_getitem(None, None, i).at(0)) != sv[i]:
+            bad.append(("index", sv, i))
+        for pre in ("h", "#", "g#", "g", ""):
+            if bool(cs_startswith(m, pre)) != sv.startswith(pre):
+                bad.append(("startswith", sv, pre))
+        other = "".join(rnd.choice(alphabet) for _ in range(rnd.randrange(0, 3)))
+        if bool(cs_eq(m, other)) != (sv == other) or not bool(cs_eq(m, sv)):
+            bad.append(("eq", sv, other))
+        cat = cs_concat(m, CStr.of(other))
+        if "".join(chr(cat.at(x)) for x in range(cat.n)) != sv + other:
+            bad.append(("concat", sv, other))
+        if bool(hex_all(sv)) != all(ch in "0123456789abcdefABCDEF" for ch in sv):
+            bad.append(("hex", sv))
+        v = rnd.choice([rnd.randrange(0, 300), rnd.randrange(0, 2**24)])
+        for spec, base, width in (("d", 10, 0), ("x", 16, 0), ("06x", 16, 6)):
+            nd = max(len(format(v, spec[-1])), width)
+            if "".join(chr(digit_char(d, base)) for d in digits_of(None, v, base, nd)) != format(v, spec):
+                bad.append(("format", v, spec))
+        if v < 1000:
+            ds = dec_str(v, 3)
+            if "".join(chr(ds.at(x)) for x in range(ds.n)) != str(v):
+                bad.append(("dec_str", v))
+    return "cstr-models-agree-with-cpython", not bad, f"6000 strings / numbers; mismatches: {bad[:3]}"
+
+
 def cs_int(st, s, base):
     """Model of int(s, base), base 10 or 16 (see the header of this section)."""
     if base not in (10, 16):
@@ -311,10 +381,7 @@ def cs_int(st, s, base):
     n = cs_concrete_len(st, s)
     if n is not None:
         codes = [s.at(i) for i in range(n)]
-        canonical = both(n >= 1, *[is_digit(c, base) for c in codes])
-        prefixed = False
-        if base == 16 and n >= 3:
-            prefixed = both(codes[0] == 48, either(codes[1] == 120, codes[1] == 88), *[is_hex(c) for c in codes[2:]])
+        canonical, prefixed = int_literal_class(codes, base)
         w = st.choose([canonical, both(neg(canonical), prefixed), both(neg(canonical), neg(prefixed))])
         if w == 0:
             return digits_value(codes, base)
@@ -485,6 +552,7 @@ def tables_setup(st, self_obj, vals):
         data = real_const(name)
         seq = Q.SSeq(len(data), (lambda i, name=name: T(name, i)), None, None, name)
         g[name] = Q.LRef(seq) if isinstance(data, list) else seq
+    g["_BASIC_COLORS"] = tuple(real_const("_BASIC_COLORS"))  # the list of names, immutable here: subscript by a symbolic int forks
 
 
 # ---------------------------------------------------------------------------------------------------------------
@@ -723,6 +791,7 @@ class parse_color_256:
     result = Opt(Int)
     raises = ()
     setup = staticmethod(tables_setup)
+    static_checks = [_xcheck_cstr]
 
     def ensures(a, result):
         yield from parse_spec_clauses(P256, a.desc, result)
@@ -880,7 +949,6 @@ class true_to_256:
 #   w | x  (x a BitWord, a constant, or an int provably inside the foreground / background number field) -> BitWord
 #   w == x, w != x, bool(w), hash((cls, w)) via the word's integer value  sum field * 2**lo
 # =============================================================================================================
-from pyvc.interp import and_mask_formula  # noqa: E402,F401
 
 
 def K(name):
@@ -1426,3 +1494,114 @@ class attrspec_set_foreground:
 
     def on_raise(old, s, a, exc):
         yield "word-unchanged-when-rejected", word(s) == word(old)
+
+
+DEPTHS = (1, 16, 88, 256, 2**24)
+
+
+@contract(DC + "AttrSpec.__init__", property="C18", replayable=False)
+class attrspec_init:
+    self_shape = SPEC
+    params = dict(fg=Str(), bg=Str(), colors=Union(*[Const(d) for d in DEPTHS], Int))
+    raises = (ATTRSPEC_ERROR,)
+    modifies = (WORD,)
+    setup = staticmethod(tables_setup)
+
+    def requires(s, a):
+        # the last alternative of `colors` stands for every other int
+        return both(*[a.colors != d for d in DEPTHS]) if isinstance(a.colors, SInt) else True
+
+    def ensures(old, s, a, result):
+        v = word(s)
+        yield "only-for-one-of-the-five-depths", either(*[a.colors == d for d in DEPTHS])
+        yield "the-word-is-well-formed", wf(v)
+        yield "88-colour-mode-is-recorded-exactly-when-declared", flag(v, "_HIGH_88_COLOR") == (a.colors == 88)
+        yield "true-colour-mode-is-recorded-exactly-when-declared", flag(v, "_HIGH_TRUE_COLOR") == (a.colors == 2**24)
+        yield "needs-no-more-colours-than-declared", colors_spec(v) <= a.colors
+        kb, kh, kt = flag(v, "_BG_BASIC_COLOR"), flag(v, "_BG_HIGH_COLOR"), flag(v, "_BG_TRUE_COLOR")
+        for label, f in colour_part_clauses(v, a.bg, kb, kh, kt, bg_number(v)):
+            yield "background-" + label, f
+
+    def on_raise(old, s, a, exc):
+        yield "only-the-librarys-own-error", issubclass(exc.cls, ATTRSPEC_ERROR)
+
+
+def stored_colour_description_clauses(v, kb, kh, kt, number, result):
+    """The colour description reported for one side of a well-formed word."""
+    m88, mtrue = flag(v, "_HIGH_88_COLOR"), flag(v, "_HIGH_TRUE_COLOR")
+    r = CStr.of(result)
+    yield "no-colour-is-default", implies(neg(either(kb, kh, kt)), cs_eq(r, "default"))
+    yield "a-basic-colour-is-its-name", implies(kb, either(*[both(number == j, cs_eq(r, nm)) for j, nm in enumerate(BASIC_NAMES)]))
+    stored = V.SOpt(z3.BoolVal(False), number)
+    for label, f in desc_spec_clauses(P88, number, r):
+        yield "at-88-colours-" + label, implies(both(kh, m88), f)
+    yield "at-88-colours-the-description-parses-back-to-the-stored-number", implies(both(kh, m88), both(*[f for _l, f in parse_spec_clauses(P88, r, stored)]))
+    for label, f in desc_spec_clauses(P256, number, r):
+        yield "at-256-colours-" + label, implies(both(kh, neg(m88)), f)
+    yield "at-256-colours-the-description-parses-back-to-the-stored-number", implies(both(kh, neg(m88)), both(*[f for _l, f in parse_spec_clauses(P256, r, stored)]))
+    yield "a-true-colour-is-hash-and-six-hex-digits", implies(kt, cs_eq(r, hex6(number), 7))
+    yield "the-true-colour-description-parses-back-to-the-stored-number", implies(kt, both(*[f for _l, f in parse_true_clauses(r, stored)]))
+
+
+@contract(DC + "AttrSpec.background", property="C18", replayable=False)
+class attrspec_background:
+    self_shape = SPEC
+    params = {}
+    result = Str(9)
+    raises = ()
+    invariant = staticmethod(RI)
+    inline = GETTERS
+    setup = staticmethod(tables_setup)
+
+    def ensures(old, s, a, result):
+        v = word(s)
+        yield from stored_colour_description_clauses(v, flag(v, "_BG_BASIC_COLOR"), flag(v, "_BG_HIGH_COLOR"), flag(v, "_BG_TRUE_COLOR"), bg_number(v), result)
+        yield "word-unchanged", word(s) == word(old)
+
+
+@contract(DC + "AttrSpec._foreground_color", property="C18", replayable=False)
+class attrspec_foreground_color:
+    self_shape = SPEC
+    params = {}
+    result = Str(13)
+    raises = ()
+    invariant = staticmethod(RI)
+    inline = GETTERS
+    setup = staticmethod(tables_setup)
+
+    def ensures(old, s, a, result):
+        v = word(s)
+        yield from stored_colour_description_clauses(v, *fg_kinds(v), fg_number(v), result)
+        yield "word-unchanged", word(s) == word(old)
+
+
+def _str_times_bool(ip, st, op, a, b):
+    """`",bold" * self.bold`: a str constant times a bool is the constant or "" (one fork)."""
+    import ast as _ast
+
+    if isinstance(op, _ast.Mult) and isinstance(a, str) and isinstance(b, SBool):
+        return a if st.branch(b) else ""
+    return NotImplemented
+
+
+SETTING_ORDER = (("bold", "_BOLD"), ("italics", "_ITALICS"), ("standout", "_STANDOUT"), ("blink", "_BLINK"), ("underline", "_UNDERLINE"), ("strikethrough", "_STRIKETHROUGH"))
+
+
+@contract(DC + "AttrSpec.foreground", property="C18", replayable=False)
+class attrspec_foreground:
+    self_shape = SPEC
+    params = {}
+    result = Str(64)
+    raises = ()
+    invariant = staticmethod(RI)
+    inline = GETTERS
+    setup = staticmethod(tables_setup)
+    binop = staticmethod(_str_times_bool)
+
+    def ensures(old, s, a, result):
+        v = word(s)
+        colour = attrspec_foreground_color.spec_value(s)
+        suffix = "".join("," + nm for nm, const in SETTING_ORDER if bool(flag(v, const)))  # decided on each path
+        want = cs_concat(CStr.of(colour), CStr.of(suffix))
+        yield "the-colour-description-then-each-setting-present-once-in-the-fixed-order", cs_eq(CStr.of(result), want, 13 + len(suffix))
+        yield "word-unchanged", word(s) == word(old)
